@@ -364,6 +364,12 @@ Ref World::apply_stmts_decls(const Op& op)
       // the model learns about the declaration before it is observed, so that redeclaration bookkeeping is complete
       sm.decls.push_back({ made, &nm, ty, kind });
       if (Rec* rc = rec(nref(sc))) rc->exp.append("elements", nref(*made));
+      if (first != nullptr) {
+         // a redeclaration shares what its master declaration knows
+         if (Rec* fr = rec(nref(*first)))
+            for (const char* key : { "linkage", "home_region", "definition" })
+               if (const Slot* sl = fr->exp.find(key); sl != nullptr and e.find(key) != nullptr) e.set_r(key, sl->ref);
+      }
       REG(*made, e, true);
       decls.add(made);
       return nref(*made);
@@ -405,7 +411,8 @@ Ref World::apply_stmts_decls(const Op& op)
       const int64_t pos = int64_t(hm->decls.size());
       Reading e{ int(Category_code::Base_type) };
       expect_stmt_defaults(e);
-      e.r("type", nref(t)).s("specifiers", 0).r("name", tn).r("home_region", nref(c->base_subobjects)).r("lexical_region", nref(c->base_subobjects));
+      // name() of a base is the name of its type, whatever that is at the time of asking: judged by the homogeneous-scope oracle
+      e.r("type", nref(t)).s("specifiers", 0).r("home_region", nref(c->base_subobjects)).r("lexical_region", nref(c->base_subobjects));
       e.r("initializer", ABSENT).r("master", nref(*m)).r("linkage", nref(L.cxx_linkage().language().what())).q("decl_set", { nref(*m) }).s("position", pos);
       hm->decls.push_back({ m, &t.name(), &t, code });
       if (Rec* rc = rec(nref(*c))) rc->exp.append("bases", nref(*m));
